@@ -167,7 +167,7 @@ func sanitize(s string) string {
 func legal(s string) bool { return sanitize(s) == s }
 
 var hostile = []string{"plain", "<x>&\"'", "a&amp;b&#60;", "]]>", "<![CDATA[x]]>", "<!--", "--><z/>", "</saml:Issuer><evil/>", "\" onload=\"x", "' x='", "tab\there", "line\nbreak", "cr\rhere", "crlf\r\nhere", " lead trail ",
-	"ü€😀", "\U0001F600\U00010000", "�", "￾", "￿", "a\x00b", "\x01\x1f", "\x7f\u0080\u0085", "\xff\xfe", "\xc3", "\xed\xa0\x80", "\xf4\x90\x80\x80", "  ", "&#0;", "&#xD800;", "<?xml version=\"1.0\"?>", "%41+%zz", "x=1&y=2"}
+	"ü€😀", "\U0001F600\U00010000", "�", "￾", "￿", "a\x00b", "\x01\x1f", "\x7f\u0080\u0085", "\xff\xfe", "\xc3", "\xed\xa0\x80", "\xf4\x90\x80\x80", "  ", "&#0;", "&#xD800;", "<?xml version=\"1.0\"?>", "%41+%zz", "x=1&y=2", "one,two;three|four", "a+b c", "k=v&SigAlg=x&Signature=AAAA"}
 
 // ---------- reflection: fill every string field, collect them back ----------
 
@@ -338,6 +338,44 @@ func Run(dir, tier string, seed int64) error {
 				}
 			}
 		}
+		// -- the RelayState is user data as well: over the Redirect binding the query must consist of exactly the binding's
+		// parameters, once each, and RelayState must come back byte for byte; over POST the hidden field carries it
+		for _, binding := range []string{idp.PostBinding, idp.RedirBinding} {
+			st.Requests["r3"] = &idp.AuthReq{ID: "r3", AppID: "app-1", RelayState: h, ACS: "https://sp.example/acs", Binding: binding, AuthReqID: "_r3", UserID: "u1", IsDone: true}
+			rep := env.Do(idp.ReqSpec{Method: http.MethodGet, Path: "/login", Query: []idp.Param{idp.Q("id", "r3")}}.HTTP())
+			run.Res.Evaluations++
+			switch rep.Kind {
+			case "saml-redirect":
+				run.Count("relaystate:redirect")
+				seen := map[string]int{}
+				for _, kv := range rep.QueryKV {
+					seen[kv[0]]++
+				}
+				okShape := len(rep.QueryKV) == len(seen)
+				for k := range seen {
+					if k != "SAMLResponse" && k != "RelayState" && k != "SigAlg" && k != "Signature" {
+						okShape = false
+					}
+				}
+				if !okShape {
+					fail("redirect-query-restructured", fmt.Sprintf("the redirect query has parameters %v: data added or repeated a parameter", seen), desc())
+					id++
+				} else if rep.Q["RelayState"] != h {
+					fail("relaystate-not-returned", fmt.Sprintf("redirect binding: RelayState comes back as %q", rep.Q["RelayState"]), desc())
+					id++
+				}
+			case "saml-post":
+				run.Count("relaystate:post")
+				want := strings.ReplaceAll(h, "\x00", "\uFFFD")
+				if rep.FormRelay != want && rep.FormRelay != strings.ReplaceAll(strings.ReplaceAll(want, "\r\n", "\n"), "\r", "\n") {
+					fail("relaystate-not-returned", fmt.Sprintf("POST binding: RelayState comes back as %q", rep.FormRelay), desc())
+					id++
+				}
+			default:
+				run.Count("relaystate:no-reply")
+			}
+			delete(st.Requests, "r3")
+		}
 		// -- login callback, failure (unknown user): status message
 		st.Requests["r2"] = &idp.AuthReq{ID: "r2", AppID: "app-1", RelayState: h, ACS: "https://sp.example/acs?" + h, Binding: idp.PostBinding, AuthReqID: h + "#reqid", UserID: "nobody", IsDone: true}
 		if rep := env.Do(idp.ReqSpec{Method: http.MethodGet, Path: "/login", Query: []idp.Param{idp.Q("id", "r2")}}.HTTP()); rep.Msg != nil {
@@ -404,7 +442,9 @@ func Run(dir, tier string, seed int64) error {
 					fail("library-decoder-rejects-own-message", fmt.Sprintf("metadata: %v", err), desc())
 					id++
 				} else if d := ed.IDPSSODescriptor; d == nil || d.Organization == nil || len(d.Organization.OrganizationName) == 0 || d.Organization.OrganizationName[0].Text != sanitize(h+"#on") ||
-					len(d.ContactPerson) == 0 || d.ContactPerson[0].Company != sanitize(h+"#cc") || len(d.ContactPerson[0].EmailAddress) == 0 || d.ContactPerson[0].EmailAddress[0] != sanitize(h+"#ce") {
+					len(d.ContactPerson) == 0 || d.ContactPerson[0].Company != sanitize(h+"#cc") || len(d.ContactPerson[0].EmailAddress) != 1 || d.ContactPerson[0].EmailAddress[0] != sanitize(h+"#ce") ||
+					len(d.ContactPerson[0].TelephoneNumber) != 1 || d.ContactPerson[0].TelephoneNumber[0] != sanitize(h+"#ct") || d.ContactPerson[0].GivenName != sanitize(h+"#cg") || d.ContactPerson[0].SurName != sanitize(h+"#cs") ||
+					len(d.Organization.OrganizationDisplayName) != 1 || d.Organization.OrganizationDisplayName[0].Text != sanitize(h+"#od") || len(d.Organization.OrganizationURL) != 1 || d.Organization.OrganizationURL[0].Text != sanitize(h+"#ou") || len(d.Organization.OrganizationName) != 1 {
 					id--
 					fail("library-decoder-value-differs", "metadata: organisation / contact person decoded by the library differ from the configuration", desc())
 					id++
